@@ -59,6 +59,11 @@ pub(crate) fn add_type_annotation(
     let mut result = String::new();
     result.push_str(&src[..candidate.insert_offset]);
     result.push_str(&candidate.annotation);
+    // `let xs=[1]`: a hint ending in `>` directly before `=` would be
+    // lexed as `>=`.
+    if candidate.annotation.ends_with('>') && src[candidate.insert_offset..].starts_with('=') {
+        result.push(' ');
+    }
     result.push_str(&src[candidate.insert_offset..]);
 
     Ok(result)
